@@ -8,6 +8,7 @@ its fzeros (failing-input search; the only check for the Mohr-Coulomb configurat
 import os, re, sys, time
 C41 = os.path.join(os.path.dirname(os.path.abspath(__file__)), "..", "C41")
 sys.path.insert(0, os.path.abspath(C41))
+import vlib
 from vlib import guarded_main
 import gbeh
 
@@ -38,13 +39,23 @@ BRICKS = {
     "C43Elasticity": dict(tag="bela", tens=[], scal=[], proofs=["C43Proofs_bela.v"], post=["Properties_C43_bela.v"],
                           proofs3d=["C43Proofs_bela_3d.v"], post3d=["Properties_C43_bela_3d.v"]),
     # ---- added in the fourth round (Coq proofs in the thorough tier; the quick tier instantiates, compares Sym vs double and differentiates numerically)
-    "C43NortonMisesPower": dict(tag="bnpw", tens=[], scal=["p"], proofs=[]),
-    "C43PlasticMisesChaboche2012": dict(tag="bpch", tens=["khr_a_0"], scal=["p"], proofs=[], extra='#define BEH_TENSOR_SCALE 2e-2\n'),
-    "C43PlasticMisesBurletCailletaud": dict(tag="bpbc", tens=["khr_a_0"], scal=["p"], proofs=[], extra='#define BEH_TENSOR_SCALE 2e-3\n'),
-    "C43HyperbolicSineMisesLinear": dict(tag="bhsl", tens=[], scal=["p"], proofs=[]),
-    "C43HyperbolicSineMises": dict(tag="bhsm", tens=[], scal=["p"], proofs=[]),
-    "C43UserDefinedMises": dict(tag="budm", tens=[], scal=["p"], proofs=[]),
-    "C43TwoFlows": dict(tag="btwo", tens=["khr_a0_0", "khr_a0_1"], scal=["p0", "p1"], proofs=[]),
+    # *_t: Coq files of the thorough tier (3-component tensors).  alt_key: while this finding is observed (NJ-FAIL key) the *_alt files
+    # (theorem restricted to theta = 1) are checked instead of the general theorem, which is false on such a tree
+    "C43NortonMisesPower": dict(tag="bnpw", tens=[], scal=["p"], proofs=[], proofs_t=["C43Proofs_bnpw.v"], post_t=["Properties_C43_bnpw.v"],
+                                alt_key="nj:C43NortonMisesPower:hag:3,3", proofs_t_alt=["C43Proofs_bnpw_theta1.v"],
+                                post_t_alt=["Properties_C43_bnpw_theta1.v"]),
+    "C43PlasticMisesChaboche2012": dict(tag="bpch", tens=["khr_a_0"], scal=["p"], proofs=[], extra='#define BEH_TENSOR_SCALE 2e-2\n',
+                                        proofs_t=["C43Proofs_bpch.v"], post_t=["Properties_C43_bpch.v"]),
+    # same with the factor Phi(p) (options b, Phi_inf): execution only
+    "C43PlasticMisesChaboche2012Phi": dict(tag="bpcp", tens=["khr_a_0"], scal=["p"], proofs=[], extra='#define BEH_TENSOR_SCALE 2e-2\n'),
+    "C43PlasticMisesBurletCailletaud": dict(tag="bpbc", tens=["khr_a_0"], scal=["p"], proofs=[], extra='#define BEH_TENSOR_SCALE 2e-3\n',
+                                            proofs_t=["C43Proofs_bpbc.v"], post_t=["Properties_C43_bpbc.v"]),
+    "C43HyperbolicSineMisesLinear": dict(tag="bhsl", tens=[], scal=["p"], proofs=[], proofs_t=["C43Proofs_bhsl.v"], post_t=["Properties_C43_bhsl.v"]),
+    "C43HyperbolicSineMises": dict(tag="bhsm", tens=[], scal=["p"], proofs=[], proofs_t=["C43Proofs_bhsm.v"], post_t=["Properties_C43_bhsm.v"]),
+    "C43UserDefinedMises": dict(tag="budm", tens=[], scal=["p"], proofs=[], proofs_t=["C43Proofs_budm.v"], post_t=["Properties_C43_budm.v"]),
+    "C43TwoFlows": dict(tag="btwo", tens=["khr_a0_0", "khr_a0_1"], scal=["p0", "p1"], proofs=[], pre_t=["C43Defs_btwo.v"],
+                        proofs_t=["C43Proofs_btwo_a.v", "C43Proofs_btwo_b.v", "C43Proofs_btwo_c.v", "C43Proofs_btwo_e.v"],
+                        post_t=["C43Proofs_btwo.v", "Properties_C43_btwo.v"]),
     "C43PlasticDrucker": dict(tag="bpdr", tens=[], scal=["p"], proofs=[]),
     "C43PlasticCazacu2004Iso": dict(tag="bpci", tens=[], scal=["p"], proofs=[]),
     "C43PlasticCazacu2001": dict(tag="bpc1", tens=[], scal=["p"], proofs=[], hyps=("h3d", "h3d")),
@@ -58,8 +69,54 @@ BRICKS = {
     "C43MohrCoulomb": dict(tag="bmc", tens=[], scal=["p"], proofs=[], hyps=("h3d", "h3d"), double_only=True,
                            extra='#define BEH_MC_LODET 0.436332312998582\n', min_corner=(25, 60)),
 }
+# proofs that need the generated modules of several configurations: elastic-loading leaf of the configurations of the first rounds (quick tier)
+EXTRA = [dict(name="elastic", needs=["C43NortonMisesLinear", "C43PlasticMisesLinearPrager", "C43NortonMisesVoce", "C43PlasticMisesSwift"],
+              proofs=["C43Proofs_elastic.v"], post=["Properties_C43_elastic.v"])]
+# groups of Coq files of a configuration: (suffix of the BRICKS keys, checked in the quick tier too)
+GROUPS = (("", True), ("3d", False), ("_t", False))
 SKIP_PARAMS = {"numerical_jacobian_epsilon", "minimal_time_step_scaling_factor", "maximal_time_step_scaling_factor", "iterMax"}
 HYP_FLAG = {"hag": "-DBRICK_HAG", "hpe": "-DBRICK_HPE", "h3d": "-DBRICK_H3D"}
+
+
+def stable_gen_dir(c, gdir, pid):
+    """copy of the generated sources in a directory named by their content (.cache/gen/<ID>-<hash>): vlib's object cache is keyed by the
+    compiler flags, which contain the include path of the generated headers; the per-run scratch directory would defeat it"""
+    import hashlib, shutil
+    h = hashlib.sha256()
+    for root, dirs, files in sorted(os.walk(gdir)):
+        dirs.sort()
+        for f in sorted(files):
+            p = os.path.join(root, f)
+            h.update(os.path.relpath(p, gdir).encode())
+            h.update(open(p, "rb").read())
+    dst = os.path.join(vlib.CACHE, "gen", "%s-%s" % (pid, h.hexdigest()[:20]))
+    if not os.path.isdir(dst):
+        os.makedirs(os.path.dirname(dst), exist_ok=True)
+        tmp = "%s.%d.tmp" % (dst, os.getpid())
+        shutil.copytree(gdir, tmp)
+        try:
+            os.replace(tmp, dst)
+        except OSError:
+            shutil.rmtree(tmp, ignore_errors=True)
+    return dst
+
+
+def mfront_generate(c, files, outdir):
+    """gbeh.mfront_generate, with the testing aid VERIF_MFRONT=<path of an mfront executable or wrapper named mfront> (a privately rebuilt
+    generator, see props/C45/private_build.py: used to verify candidate fixes of mfront/src; never set in normal runs)"""
+    alt = os.environ.get("VERIF_MFRONT", "")
+    if not alt:
+        return gbeh.mfront_generate(c, files, outdir)
+    c.notes.append("TESTING AID ACTIVE: VERIF_MFRONT=%s" % alt)
+    os.makedirs(outdir, exist_ok=True)
+    bad = []
+    for f in files:
+        rc, out, err = c.run([alt, "--interface=generic", f], cwd=outdir, timeout=300)
+        if rc != 0:
+            bad.append((f, (out + err)[-1500:]))
+    if bad:
+        raise vlib.BuildError("mfront failed: %s" % bad)
+    return outdir
 
 
 def main(c):
@@ -70,7 +127,7 @@ def main(c):
         names = [n for n in names if BRICKS[n]["tag"] in only.split(",")]
         c.notes.append("TESTING AID ACTIVE: VERIF_C43_ONLY=%s" % only)
     gdir = os.path.join(c.work, "gen")
-    gbeh.mfront_generate(c, [os.path.join(HERE, "mfront", n + ".mfront") for n in names], gdir)
+    mfront_generate(c, [os.path.join(HERE, "mfront", n + ".mfront") for n in names], gdir)
     c.log("mfront done")
     for n in names:
         if gbeh.mutate_generated(gdir, n):
@@ -81,34 +138,49 @@ def main(c):
         q, t = BRICKS[n].get("hyps", ("hag", "hag,hpe,h3d"))
         return c.pick(q, t)
 
-    def one(n):
+    for n in names:
         b = BRICKS[n]
-        tag = b["tag"]
         params = [p for p in gbeh.generated_parameters(gdir, n) if p not in SKIP_PARAMS]
-        cfg = os.path.join(gdir, "cfg_%s.hxx" % n)
-        with open(cfg, "w") as f:
-            f.write('#define BEH %s\n#define BEH_HEADER "TFEL/Material/%s.hxx"\n#define BEH_TAG "%s"\n' % (n, n, tag))
+        with open(os.path.join(gdir, "cfg_%s.hxx" % n), "w") as f:
+            f.write('#define BEH %s\n#define BEH_HEADER "TFEL/Material/%s.hxx"\n#define BEH_TAG "%s"\n' % (n, n, b["tag"]))
             f.write("#define BEH_PARAMS %s\n" % " ".join("P(%s)" % p for p in params))
             f.write("#define BEH_STENSORS %s\n" % " ".join("T(%s)" % p for p in b["tens"]))
             f.write("#define BEH_SCALARS %s\n" % " ".join("S(%s)" % p for p in b["scal"]))
             if b.get("double_only"):
                 f.write("#define BEH_DOUBLE_ONLY\n")
             f.write(b.get("extra", ""))
+    gdir = stable_gen_dir(c, gdir, "C43")
+
+    def one(n):
+        b = BRICKS[n]
+        tag = b["tag"]
         hy = hyps_of(n)
-        exe = c.cxx("trace_" + tag, [os.path.join(HERE, "trace_brick.cxx"), os.path.join(gdir, "src", n + ".cxx")],
-                    gbeh.SUPPORT + ["src/Math/MathException.cxx"],
-                    flags=gbeh.include_flags(gdir) + ["-I" + gdir, '-DBRICK_CFG="cfg_%s.hxx"' % n] + [HYP_FLAG[x] for x in hy.split(",")])
+        try:
+            exe = c.cxx("trace_" + tag, [os.path.join(HERE, "trace_brick.cxx"), os.path.join(gdir, "src", n + ".cxx")],
+                        gbeh.SUPPORT + ["src/Math/MathException.cxx"],
+                        flags=gbeh.include_flags(gdir) + ["-I" + gdir, '-DBRICK_CFG="cfg_%s.hxx"' % n] + [HYP_FLAG[x] for x in hy.split(",")])
+        except vlib.BuildError as e:
+            return n, "build", "", str(e), None
         out_v = os.path.join(c.work, "coq", "Gen%s.v" % tag)
-        rc, out, err = c.run([exe, "gen", out_v, str(c.seed % 1000003), str(c.pick(300, 3000)), hy], timeout=900)
+        # the configurations added in the fourth round run fewer states in the quick tier (their theorems are in the thorough tier)
+        ncases = c.pick(300 if BRICKS[n]["proofs"] or b.get("double_only") else 120, 3000)
+        rc, out, err = c.run([exe, "gen", out_v, str(c.seed % 1000003), str(ncases), hy], timeout=900)
         return n, rc, out, err, out_v
 
     gen = {}
-    nag = nnj = ncorner = 0
+    nag = nnj = ncorner = nties = nelastic = 0
+    observed = set()
     with ThreadPoolExecutor(max_workers=4) as ex:
         results = list(ex.map(one, names))
     c.log("tracers done")
     for n, rc, out, err, out_v in results:
         b = BRICKS[n]
+        if rc == "build":
+            # the C++ emitted by mfront for this configuration does not compile (with double or Sym): the configuration itself is the failing input
+            msg = [l for l in err.splitlines() if "error" in l]
+            c.report("instantiate:" + n, "the C++ that mfront generates for the brick configuration props/C43/mfront/%s.mfront does not compile: %s" % (
+                n, " | ".join(msg[:3])[:600]), {"program": n, "mfront_file": "props/C43/mfront/%s.mfront" % n, "compiler_output": err[-3000:]}, True)
+            continue
         if rc != 0:
             c.report("trace:" + n, "tracer of brick program %s failed (generated class no longer instantiates / runs with Sym): %s" % (n, err[-600:]),
                      {"stderr": err[-3000:], "program": n}, False)
@@ -120,17 +192,23 @@ def main(c):
             t = l.split()
             if t[0] == "NJ":
                 kv = dict(x.split("=") for x in t[3:])
-                nnj += int(kv["n"])
+                nnj += int(kv["n"]) + int(kv.get("elastic", 0))
                 ncorner += int(kv.get("corner", 0))
-                c.count(int(kv["n"]), ("nj", n, t[2], kv["n"]), True)
+                nties += int(kv.get("ties", 0))
+                nelastic += int(kv.get("elastic", 0))
+                c.count(int(kv["n"]) + int(kv.get("elastic", 0)), ("nj", n, t[2], kv["n"]), True)
                 if int(kv["n"]) == 0:
                     c.report("nj-none:%s:%s" % (n, t[2]), "no state of %s reached the reference (plastic loading) path" % n, {"line": l}, False)
                 if "min_corner" in b and int(kv.get("corner", 0)) < c.pick(*b["min_corner"]):
                     c.report("nj-corner:%s:%s" % (n, t[2]), "the sampling of %s does not cover the rounded-corner zones |lode| > lodeT (%s states)" % (
                         n, kv.get("corner")), {"line": l}, False)
+                if "min_ties" in b and int(kv.get("ties", 0)) < c.pick(*b["min_ties"]):
+                    c.report("nj-ties:%s:%s" % (n, t[2]), "the sampling of %s does not cover the states with two equal principal stresses (%s states)" % (
+                        n, kv.get("ties")), {"line": l}, False)
             elif t[0] == "NJ-FAIL":
                 d = gbeh.parse_kv(" ".join(t[2:]))
                 key = "nj:%s:%s:%d,%d" % (n, t[2], int(d["i"][0]), int(d["j"][0]))
+                observed.add(key)
                 c.report(key, "brick program %s (%s): jacobian(%d,%d) = %.10g but centred differences of fzeros give %.10g at state in=%s z=%s (Lode angle %.4g deg)" % (
                     n, t[2], int(d["i"][0]), int(d["j"][0]), d["analytical"][0], d["numerical"][0], d["in"], d["z"], d.get("lode", [0.0])[0]),
                     {"program": n, "hypothesis": t[2], "i": d["i"][0], "j": d["j"][0], "analytical": d["analytical"][0],
@@ -138,22 +216,38 @@ def main(c):
                      "how": "props/C43/trace_brick.cxx (double instantiation)"}, True)
             elif t[0] == "LAYOUT":
                 c.sample({"program": n, "hypothesis": t[2], "unknowns_and_inputs": " ".join(t[3:])[:400]})
-    proved = [n for n in names if BRICKS[n]["proofs"]]
-    proved3d = [n for n in names if BRICKS[n].get("proofs3d")] if not c.quick() else []
+
+    # ---- Coq files of this run: per configuration and group (see GROUPS); *_alt files while the configuration's finding is observed
+    def files_of(n, key, sfx):
+        b = BRICKS[n]
+        if b.get("alt_key") in observed and (key + sfx + "_alt") in b:
+            return b[key + sfx + "_alt"]
+        return b.get(key + sfx, [])
+
+    active = [(n, sfx) for n in names for (sfx, inquick) in GROUPS if (inquick or not c.quick()) and files_of(n, "proofs", sfx)]
+    extras = [e for e in EXTRA if all(m in names for m in e["needs"])]
+    needgen = sorted({n for (n, _) in active} | {m for e in extras for m in e["needs"]}, key=names.index)
+    for n in names:
+        if BRICKS[n].get("alt_key") in observed:
+            c.notes.append("%s: finding %s observed, the theorem restricted to theta = 1 (%s) is checked instead of the general one" % (
+                n, BRICKS[n]["alt_key"], BRICKS[n].get("post_t_alt")))
     c.coverage["programs"] = len(gen)
     c.coverage["disagreements_checked"] = nag + nnj
     c.coverage["traces_validated_against_impl"] = nag
     c.coverage["corner_zone_states"] = ncorner
-    c.coverage["rule"] = ("brick configurations %s x hypotheses %s (Mohr-Coulomb: Tridimensional, double only, %d of its states in the rounded-corner zones); "
-                          "seeded plastic-loading and elastic states with the declared material coefficients; agreement Sym trace vs double computeFdF on each "
-                          "state's own path; analytical vs centred-difference jacobian on the states of the reference path; Coq: every jacobian entry of %s "
-                          "(3-component tensors)%s" % (names, c.pick("hag", "hag,hpe,h3d"), ncorner, proved,
-                                                      "" if c.quick() else " and of %s (Tridimensional)" % proved3d))
+    c.coverage["eigenvalue_tie_states"] = nties
+    c.coverage["elastic_leaf_states"] = nelastic
+    c.coverage["rule"] = ("brick configurations %s x hypotheses (default %s; Mohr-Coulomb, Cazacu 2001 / orthotropic Cazacu 2004: Tridimensional only); seeded "
+                          "plastic-loading and elastic states with the declared material coefficients, theta = 1 or in [0.5, 1]; agreement Sym trace vs double "
+                          "computeFdF on each state's own path; analytical vs centred-difference jacobian on the states of the reference path and of the "
+                          "elastic-loading path (%d corner-zone states for Mohr-Coulomb, %d states with two equal principal stresses for Hosford/Barlat); "
+                          "Coq: every jacobian entry of %s" % (names, c.pick("hag", "hag,hpe,h3d"), ncorner, nties,
+                                                               ["%s%s" % (BRICKS[n]["tag"], sfx or "_hag") for (n, sfx) in active] + [e["name"] for e in extras]))
     c.trusted("mfront built from /repo's working tree and g++ template instantiation of the generated classes with symv::Sym",
               "engine S tracer (cxx/sym/sym.hxx incl. numeric_limits<Sym>::quiet_NaN for the unused bissection members), props/C41/gsym.hxx, props/C43/trace_brick.cxx",
-              "path conditions <tag>_cond_<h> (plastic loading, regularisations max(seq, ..), max(seq-R, eps K) inactive) printed in the generated files: the traced "
-              "definitions are the code's outputs on the states that satisfy them")
-    if any(n not in gen for n in proved):
+              "path conditions <tag>_cond_<h> (plastic loading, regularisations max(seq, ..), max(seq-R, eps K) inactive) and <tag>_econd_<h> (elastic loading) "
+              "printed in the generated files: the traced definitions are the code's outputs on the states that satisfy them")
+    if any(n not in gen for n in needgen):
         return
     a = os.path.abspath(os.path.join(C41, "coq"))
     r0 = c.coq([os.path.join(a, "GBehLib.v"), os.path.join(a, "BehSpec.v"), "C43Lib.v"], timeout=600)
@@ -164,22 +258,25 @@ def main(c):
     # generated modules and shared definitions first (fast), then the proof files, 4 at a time, then per configuration the
     # glue lemmas and the Properties file (Print Assumptions is slow: also 4 at a time)
     def pre(n):
-        return c.coq([gen[n]] + BRICKS[n].get("pre", []) + ([] if c.quick() else BRICKS[n].get("pre3d", [])), timeout=600)
+        fs = [gen[n]]
+        for (m, sfx) in active:
+            if m == n:
+                fs += files_of(n, "pre", sfx)
+        return c.coq(fs, timeout=600)
 
     with ThreadPoolExecutor(max_workers=4) as ex:
-        rgs = [r for r in ex.map(pre, proved) if not r.ok]
+        rgs = [r for r in ex.map(pre, needgen) if not r.ok]
     if rgs:
         for r in rgs:
             c.coq_failures(r, None)
         return
     c.log("coq generated modules done")
-    phase1 = []
-    for n in proved:
-        b = BRICKS[n]
-        phase1 += [(n, f, False) for f in b["proofs"]]
-        if not c.quick():
-            phase1 += [(n, f, True) for f in b.get("proofs3d", [])]
-    phase1.sort(key=lambda j: (0 if j[2] else 1, 0 if re.search(r"_[abc]\.v$", j[1]) else 1))
+    phase1 = []  # (group id, file, slow first)
+    for (n, sfx) in active:
+        phase1 += [((n, sfx), f, sfx == "3d") for f in files_of(n, "proofs", sfx)]
+    for e in extras:
+        phase1 += [((e["name"], ""), f, False) for f in e["proofs"]]
+    phase1.sort(key=lambda j: (0 if j[2] else 1, 0 if re.search(r"_[abce]\.v$", j[1]) else 1))
 
     def prove(job):
         t0 = time.time()
@@ -190,24 +287,19 @@ def main(c):
     with ThreadPoolExecutor(max_workers=4) as ex:
         rs = list(ex.map(prove, phase1))
     failed = [r for (job, r) in rs if not r.ok]
-    badcfg = {(job[0], job[2]) for (job, r) in rs if not r.ok}
+    badcfg = {job[0] for (job, r) in rs if not r.ok}
     phase2 = []
-    for n in proved:
-        b = BRICKS[n]
-        for is3d, key in ((False, "post"), (True, "post3d")):
-            if is3d and c.quick():
-                continue
-            files = b.get(key, [])
-            if not files:
-                continue
-            if (n, is3d) in badcfg:
-                # the Properties file of this configuration cannot be compiled: its theorems are undischarged obligations
-                for f in files:
-                    if f.startswith("Properties"):
-                        txt = open(os.path.join(c.dir, "coq", f)).read()
-                        c.coverage["obligations"] += len(re.findall(r"^\s*(?:Theorem|Lemma|Corollary|Example)\s+", txt, flags=re.M))
-                continue
-            phase2.append(files)
+    for (gid, files) in [((n, sfx), files_of(n, "post", sfx)) for (n, sfx) in active] + [((e["name"], ""), e["post"]) for e in extras]:
+        if not files:
+            continue
+        if gid in badcfg:
+            # the Properties file of this configuration cannot be compiled: its theorems are undischarged obligations
+            for f in files:
+                if f.startswith("Properties"):
+                    txt = open(os.path.join(c.dir, "coq", f)).read()
+                    c.coverage["obligations"] += len(re.findall(r"^\s*(?:Theorem|Lemma|Corollary|Example)\s+", txt, flags=re.M))
+            continue
+        phase2.append(files)
 
     def post(files):
         t0 = time.time()
